@@ -13,7 +13,7 @@ class SubPoint(Point):
 
 
 # representation kinds of a finite point
-FINITE_REPS = ("j1", "jz2", "jzr", "neg1", "negz", "legacy", "subj", "sublegacy")
+FINITE_REPS = ("j1", "jz2", "jzr", "neg1", "negz", "legacy", "subj", "sublegacy", "zneg", "zbig")
 # representation kinds of the identity
 IDENT_REPS = ("INF", "z0", "yz0_001", "INFcopy")
 
@@ -51,13 +51,21 @@ def build(cfp, P, rep, rng, order=None, generator=False):
         return SubJacobi(cfp, x * z * z % p, y * z * z * z % p, z, order, generator)
     if rep == "sublegacy":
         return SubPoint(cfp, x, y, order)
+    if rep in ("zneg", "zbig"):
+        # the scaling factor handed over unreduced: Z = -z (then (X : -Y : -Z) is the same point) or Z = z + p.  X and Y stay reduced
+        # (unreduced X, Y with Z = 1 are returned as they are by x() / y() on the pinned tree: outside the stated input domain)
+        z = rng.randrange(1, p)
+        X, Y = x * z * z % p, y * z * z * z % p
+        if rep == "zneg":
+            return PointJacobi(cfp, X, (-Y) % p, -z, order, generator)
+        return PointJacobi(cfp, X, Y, z + p * rng.randrange(1, 3), order, generator)
     raise ValueError(rep)
 
 
 def rep_class(rep):
     if rep in ("j1", "neg1"):
         return "z1"
-    if rep in ("jz2", "jzr", "negz", "subj"):
+    if rep in ("jz2", "jzr", "negz", "subj", "zneg", "zbig"):
         return "z"
     if rep == "sublegacy":
         return "legacy"
